@@ -137,6 +137,9 @@ func validateCurrencyOverflow(ms *MidState, txn types.Transaction) error {
 	for _, sfo := range txn.SiafundOutputs {
 		overflow = overflow || sfo.Value > ms.base.SiafundCount()
 	}
+	// the tax of each new contract is added to the siafund pool when the
+	// transaction is applied
+	pool := ms.siafundTaxRevenue
 	for _, fc := range txn.FileContracts {
 		add(fc.Payout)
 		for _, in := range fc.ValidProofOutputs {
@@ -144,6 +147,9 @@ func validateCurrencyOverflow(ms *MidState, txn types.Transaction) error {
 		}
 		for _, in := range fc.MissedProofOutputs {
 			add(in.Value)
+		}
+		if !overflow {
+			pool, overflow = pool.AddWithOverflow(ms.base.FileContractTax(fc))
 		}
 	}
 	for _, fcr := range txn.FileContractRevisions {
@@ -596,8 +602,17 @@ func validateV2CurrencyOverflow(ms *MidState, txn types.V2Transaction) error {
 	for _, sfo := range txn.SiafundOutputs {
 		overflow = overflow || sfo.Value > ms.base.SiafundCount()
 	}
+	// the tax of each new contract is added to the siafund pool when the
+	// transaction is applied
+	pool := ms.siafundTaxRevenue
+	addTax := func(fc types.V2FileContract) {
+		if !overflow {
+			pool, overflow = pool.AddWithOverflow(ms.base.V2FileContractTax(fc))
+		}
+	}
 	for _, fc := range txn.FileContracts {
 		addContract(fc)
+		addTax(fc)
 	}
 	for _, fc := range txn.FileContractRevisions {
 		addContract(fc.Revision)
@@ -605,6 +620,7 @@ func validateV2CurrencyOverflow(ms *MidState, txn types.V2Transaction) error {
 	for _, fcr := range txn.FileContractResolutions {
 		if r, ok := fcr.Resolution.(*types.V2FileContractRenewal); ok {
 			addContract(r.NewContract)
+			addTax(r.NewContract)
 			add(r.FinalRenterOutput.Value)
 			add(r.FinalHostOutput.Value)
 			add(r.RenterRollover)
